@@ -34,7 +34,7 @@ func init() {
 		Props: []string{"C19", "C01", "C15"},
 		Min:   3,
 		Doc: "a remaining-bytes value (size - offset) is narrowed to a chunk length only on a branch where it was compared smaller than the chunk size; " +
-			"in the multiplexed receiver the positional write is dominated by the rejection of chunkLen > chunkSize and of chunkIndex >= totalChunks, " +
+			"in the multiplexed receiver the positional write is dominated by the rejection of chunkLen > chunkSize, of chunkIndex >= totalChunks and of chunkLen != chunkSizeForIndex(size, chunkSize, index) (F42), " +
 			"and its offset is index*chunkSize of the same file state",
 		Run: runTile,
 	})
@@ -442,6 +442,31 @@ func runTile(c *Ctx) {
 				}
 				return "", false, false
 			}}}}
+			// exact length: chunkLen != chunkSizeForIndex(size, chunkSize, idx) rejected
+			exact := &PassSpec{Name: "exact-len", Vias: []Via{{Cond: func(g *FuncInfo, e ast.Expr) (string, bool, bool) {
+				gi := g.Info()
+				be, ok := ast.Unparen(e).(*ast.BinaryExpr)
+				if !ok || (be.Op != token.NEQ && be.Op != token.EQL) {
+					return "", false, false
+				}
+				x, y := be.X, be.Y
+				if ObjOf(gi, StripConv(gi, x)) != lenObj {
+					x, y = y, x
+				}
+				if ObjOf(gi, StripConv(gi, x)) != lenObj {
+					return "", false, false
+				}
+				for _, d := range append([]ast.Expr{y}, resolveExprs(g, y, 1)...) {
+					if call, ok := ast.Unparen(d).(*ast.CallExpr); ok {
+						if h := p.CalleeInfo(gi, call); h != nil && h.Name == "transfer.chunkSizeForIndex" && len(call.Args) == 3 && ObjOf(gi, StripConv(gi, call.Args[2])) == idxObj {
+							return "len==tile", be.Op == token.EQL, true
+						}
+					}
+				}
+				return "", false, false
+			}}}}
+			c.Check(exact.Passed(f, r, "len==tile"), key+"/len==tile", call.Pos(), "write dominated by the rejection of a chunk length other than the one its index takes in the file",
+				"positional write is not dominated by chunkLen == chunkSizeForIndex(size, chunkSize, index): a faulty sender gets a file acknowledged that is longer than announced (a full-size last chunk is written past the end) or has a hole (a short chunk is counted as the whole chunk)")
 			okLen := bspec.Passed(f, r, "len<=chunk")
 			okIdx := bspec.Passed(f, r, "idx<count")
 			c.Check(okLen, key+"/len<=chunkSize", call.Pos(), "write dominated by rejection of chunkLen > chunkSize", "positional write is not dominated by a rejection of chunkLen > chunkSize: a frame can spill into the next chunk")
